@@ -10,7 +10,7 @@
 from ..model import AnalysisError
 from ..terms import T, walk_terms
 from ..absint import TOP
-from ..walk import data_derives, ret_alts, call_parts, call_arg, is_call_to, const_val, NOVAL, strip_views, unwrap_gamma, is_conj, callee_name, ctx_tree, newaxis_insertions, axis_reordering
+from ..walk import dead_leaf, data_derives, ret_alts, call_parts, call_arg, is_call_to, const_val, NOVAL, strip_views, unwrap_gamma, is_conj, callee_name, ctx_tree, newaxis_insertions, axis_reordering, only_adds_axes
 from .. import ein, sel
 
 B = 'pb_bss.extraction.beamformer::'
@@ -108,7 +108,10 @@ def check_mvdr(run, A):
 
             def base_param(x):
                 x = strip_views(x)
-                while x.op in ('mu', 'gamma') or newaxis_insertions(x) is not None or is_call_to(x, 'numpy.reshape', 'numpy.broadcast_to'):
+                while x.op in ('mu', 'gamma') or newaxis_insertions(x) is not None or only_adds_axes(x) is not None or is_call_to(x, 'numpy.reshape', 'numpy.broadcast_to'):
+                    if only_adds_axes(x) is not None and newaxis_insertions(x) is None:
+                        x = strip_views(only_adds_axes(x))
+                        continue
                     if x.op == 'mu':
                         x = strip_views(x.args[0])
                     elif x.op == 'gamma':
@@ -246,7 +249,7 @@ def check_ref_channel(run, A):
         run.check(okq, 'R-EIN', f'get_optimal_reference_channel {st["sub"]!r}: per-column quadratic form w_R^H Phi w_R', s.loc, '',
                   f'{st["sub"]!r}: conj(w) must contract the row index, w the column index of the PSD, the column index R of w is kept', construct=f'R-EIN::{q}::quadratic-form')
     args = sel.argext_calls(g)
-    rets = [strip_views(x) for x in unwrap_gamma(g.ret) if x.op != 'raise']
+    rets = [strip_views(x) for x in unwrap_gamma(g.ret) if not dead_leaf(x)]
     okr = bool(div) and bool(rets) and all(is_call_to(ret, 'numpy.argmax') and any(x is div[0] for x in walk_terms(call_arg(ret, 0))) for ret in rets)
     run.check(okr, 'R-SEL', 'get_optimal_reference_channel: reference channel = arg-max of the SNR', fn.loc(), '',
               f'return value is not np.argmax of the SNR (found {[k for _, k in args]})', construct=f'R-SEL::{q}::argmax')
